@@ -485,6 +485,9 @@ enum Op {
     Batch { f: usize, reqs: Vec<usize>, alone_first: bool },
     /// a stateless entry point
     Call { e: Entry, f: usize, req: usize, variant: u8 },
+    /// some OTHER use of the library between parses (formatting in any format, lexical formatting,
+    /// hashing / comparing / cloning the parsed term): no verdict of its own, it is history
+    Other { f: usize, g: usize, req: usize },
 }
 
 #[derive(Default, Clone)]
@@ -507,6 +510,8 @@ pub struct SessionsRunStats {
     pub cross_format_pairs: u64,
     pub long_sessions: u64,
     pub soak_runs: u64,
+    pub other_calls: u64,
+    pub calls_temp_format: u64,
     pub coop_runs: u64,
     pub coop_threads: u64,
     pub coop_ops: u64,
@@ -660,6 +665,37 @@ impl<'w> World<'w> {
 
     fn exec(&self, client: usize, op: Op, nested: bool) {
         match op {
+            Op::Other { f, g, req } => {
+                let s = &self.reqs[req].text;
+                {
+                    let mut st = self.st.borrow_mut();
+                    st.trace.u64(300 + (f * 3 + g) as u64);
+                    st.trace.str(s);
+                    st.log.line(|| format!("client {client}: other library use: parse [{}] {:?}, then format it in {} (enum + lexical), hash / compare / clone its term", FORMAT_NAMES[f], s, FORMAT_NAMES[g]));
+                }
+                let _ = guarded(|| {
+                    use std::hash::{Hash, Hasher};
+                    if let Ok(v) = ENUM_FORMATS[f].parse::<Narsese>(s) {
+                        let text = ENUM_FORMATS[g].format_narsese(&v);
+                        let _ = ENUM_FORMATS[g].parse::<Narsese>(&text);
+                        let term: &narsese::enum_narsese::Term = match &v {
+                            narsese::api::NarseseValue::Term(t) => t,
+                            narsese::api::NarseseValue::Sentence(x) => narsese::api::GetTerm::get_term(x),
+                            narsese::api::NarseseValue::Task(x) => narsese::api::GetTerm::get_term(x),
+                        };
+                        let mut h = std::collections::hash_map::DefaultHasher::new();
+                        term.hash(&mut h);
+                        let c = term.clone();
+                        std::hint::black_box((h.finish(), c == *term));
+                    }
+                    if let Ok(lv) = lex_static(f).parse(s) {
+                        let text = lex_static(g).format_narsese(&lv);
+                        let _ = lex_static(g).parse(&text);
+                        let folded: Result<Narsese, _> = lv.try_fold_into(&ENUM_FORMATS[f]);
+                        std::hint::black_box(folded.is_ok());
+                    }
+                });
+            }
             Op::Call { e, f, req, variant } => {
                 let s = &self.reqs[req].text;
                 {
@@ -667,12 +703,17 @@ impl<'w> World<'w> {
                     st.stats.calls[e.idx()] += 1;
                     st.trace.u64(100 + e.idx() as u64);
                     st.trace.str(s);
-                    st.log.line(|| format!("client {client}: {}{} [{}] {:?}", ENTRY_NAMES[e.idx()], ["", " (from Vec<char>)", " (fresh instance)"][variant as usize], FORMAT_NAMES[f], s));
+                    st.log.line(|| format!("client {client}: {}{} [{}] {:?}", ENTRY_NAMES[e.idx()], ["", " (from Vec<char>)", " (fresh instance)", " (format held by value)"][variant as usize], FORMAT_NAMES[f], s));
                 }
                 let o = match (&e, variant) {
                     (Entry::Enum, 1) => {
                         self.st.borrow_mut().stats.calls_chars += 1;
                         enum_outcome(guarded(|| ENUM_FORMATS[f].parse_chars::<Narsese>(s.chars().collect())))
+                    }
+                    (Entry::Enum, 3) => {
+                        // the format held by value in a reused slot (as `FORMAT_X.parse(..)` on the const does)
+                        self.st.borrow_mut().stats.calls_temp_format += 1;
+                        enum_outcome(guarded(|| with_temp_enum_format(f, |fmt| fmt.parse::<Narsese>(s).map_err(|e| e.to_string()))))
                     }
                     (Entry::Lex, 2) => {
                         self.st.borrow_mut().stats.calls_lex_fresh += 1;
@@ -691,7 +732,7 @@ impl<'w> World<'w> {
                     _ => eval_entry(&e, f, s),
                 };
                 self.st.borrow_mut().log.line(|| format!("    -> {}", o.show));
-                self.observe(&e, f, s, &o, format!("client {client} {}{}", ENTRY_NAMES[e.idx()], ["", " via parse_chars", " on a fresh instance"][variant as usize]));
+                self.observe(&e, f, s, &o, format!("client {client} {}{}", ENTRY_NAMES[e.idx()], ["", " via parse_chars", " on a fresh instance", " with the format held by value"][variant as usize]));
             }
             Op::Batch { f, reqs, alone_first } => {
                 let texts: Vec<&'w str> = reqs.iter().map(|r| self.reqs[*r].text.as_str()).collect();
@@ -958,7 +999,7 @@ pub fn run_sessions(ch: &mut Choices, verbose: bool) -> SessionsReport {
             // one (the same string under two vocabularies), and sometimes both back to back
             let fmt_of = |ch: &mut Choices, r: usize| if ch.chance(1, 6) { ch.choose(3) as usize } else { reqs[r].f };
             // 0 = batch (the session), then the stateless entry points
-            match ch.weighted(&[50, 10, 8, 6, 8, 4, 6, 8]) {
+            match ch.weighted(&[50, 10, 8, 6, 8, 4, 6, 8, 8]) {
                 0 => {
                     // most sessions are short; some are long-lived (state that accumulates)
                     let n = if ch.chance(1, 10) { ch.range(30, 150) as usize } else { ch.range(1, 8) as usize };
@@ -981,6 +1022,11 @@ pub fn run_sessions(ch: &mut Choices, verbose: bool) -> SessionsReport {
                     let alone_first = ch.chance(1, 2);
                     q.push_back(Op::Batch { f, reqs: ids, alone_first });
                 }
+                8 => {
+                    let r = pick_req(ch);
+                    stats.other_calls += 1;
+                    q.push_back(Op::Other { f: reqs[r].f, g: ch.choose(3) as usize, req: r });
+                }
                 w => {
                     let mut r = pick_req(ch);
                     let side = ch.choose(4) as usize;
@@ -994,7 +1040,7 @@ pub fn run_sessions(ch: &mut Choices, verbose: bool) -> SessionsReport {
                     }
                     let f = fmt_of(ch, r);
                     let (e, variant) = match w {
-                        1 => (Entry::Enum, 0),
+                        1 => (Entry::Enum, if ch.chance(1, 3) { 3 } else { 0 }),
                         2 => (Entry::Enum, 1),
                         3 => ([Entry::SideTruth, Entry::SideBudget, Entry::SideStamp, Entry::SidePunct][side].clone(), 0),
                         4 => (Entry::Lex, 0),
